@@ -487,6 +487,16 @@ func c15(c *Check) {
 	c.Extra["panic_sources_examined"] = nsites
 	c.Rule("C15/result-used-only-after-its-error-was-ruled-out", "in code reachable outside transaction recovery a pointer returned together with an error is dereferenced only where the error has been tested nil (or the pointer non-nil)", 1)
 	resultUsedAfterErrorCheck(c, "C15/result-used-only-after-its-error-was-ruled-out", fns)
+	c.Rule("C15/imported-metadata-cannot-shadow-client-state", "the client genesis import writes the free-form client metadata before the client and consensus states, never after them: a validated genesis whose metadata uses a reserved key cannot leave undecodable bytes where a client state is expected (the next client proposal would panic in MustUnmarshalClientState)", 2)
+	{
+		ig := c.F("x/xibc/core/client.InitGenesis")
+		neverBefore(c, "C15/imported-metadata-cannot-shadow-client-state", ig, "keeper.(Keeper).SetClientState", "keeper.(Keeper).SetAllClientMetadata",
+			"metadata is written before any client state", "SetAllClientMetadata runs after SetClientState: a metadata entry under the reserved key clientState overwrites the imported client state")
+		neverBefore(c, "C15/imported-metadata-cannot-shadow-client-state", ig, "keeper.(Keeper).SetClientConsensusState", "keeper.(Keeper).SetAllClientMetadata",
+			"metadata is written before any consensus state", "SetAllClientMetadata runs after SetClientConsensusState: a metadata entry under a consensus-state key overwrites the imported consensus state")
+	}
+	c.Rule("C15/pair-id-only-of-a-found-pair", "in code reachable outside transaction recovery TokenPair.GetID (which indexes the first denomination) is applied to a pair read from the store only where the lookup's found result is true", 1)
+	idOnlyOfFoundPair(c, "C15/pair-id-only-of-a-found-pair", fns)
 	c.Rule("C15/no-failure-reported-as-success", "on the failure edge of one error no function returns another error value that is provably nil at that point (a wrapped stale `err` instead of the error just tested): a failed step is never reported as success", 1)
 	noFailureAsSuccess(c, "C15/no-failure-reported-as-success", fns)
 	c.Rule("C15/audit-table-live", "every audited entry still matches a site (stale entries are reported so the table cannot silently over-approve)", 25)
